@@ -34,7 +34,7 @@ theorem tryPush_inv {data : List UInt8} {s s' : State} {u : Unit} (h : tryPush d
     s.cursor + data.length ≤ s.available ∧ s.cursor + data.length ≤ s.octets.size ∧
     s'.cursor = s.cursor + data.length ∧ s'.available = s.available ∧ s'.octets.size = s.octets.size := by
   have hroom : s.cursor + data.length ≤ s.available ∧ s.cursor + data.length ≤ s.octets.size := by
-    unfold tryPush at h
+    rw [tryPush_v0] at h; unfold V0.tryPush at h
     split at h
     · cases h
     · split at h
@@ -52,10 +52,10 @@ theorem tryPush_inv {data : List UInt8} {s s' : State} {u : Unit} (h : tryPush d
   · rw [← h.2]; simp only [writeAt_size]
 
 /-- a successful `add_rr` of a root-owned record without RDATA had room for its eleven octets -/
-theorem addRr_root_room {ty cls ttl : Nat} {s0 s' : State} {u : Unit} (hty : componentTypes cls ty = [])
+theorem addRr_root_room {ty cls ttl : Nat} {s0 s' : State} {u : Unit} (hty : componentTypes cls ty = some [])
     (h : addRr .none WName.root ty cls ttl [] s0 = (.ok u, s')) :
     s0.cursor + 11 ≤ s0.available ∧ s0.cursor + 11 ≤ s0.octets.size := by
-  unfold addRr at h
+  rw [addRr_v0] at h; unfold V0.addRr at h
   obtain ⟨_, s1, h1, h⟩ := bind_ok_inv h
   have e1 : s1.cursor = s0.cursor ∧ s1.available = s0.available ∧ s1.octets.size = s0.octets.size ∧
       s1.mode = s0.mode := by
@@ -63,9 +63,9 @@ theorem addRr_root_room {ty cls ttl : Nat} {s0 s' : State} {u : Unit} (hty : com
   obtain ⟨p, s2, h2, h⟩ := bind_ok_inv h
   have e2 : s1.cursor + 1 ≤ s1.available ∧ s1.cursor + 1 ≤ s1.octets.size ∧
       s2.cursor = s1.cursor + 1 ∧ s2.available = s1.available ∧ s2.octets.size = s1.octets.size := by
-    unfold writeHintedName at h2
+    rw [writeHintedName_v0] at h2; unfold V0.writeHintedName at h2
     rw [if_pos (Or.inr (by rw [root_wire]; decide))] at h2
-    unfold writeUncompressedName at h2
+    rw [writeUncompressedName_v0] at h2; unfold V0.writeUncompressedName at h2
     rcases ht : tryPush WName.root.wire s1 with ⟨(a | e | _), sx⟩
     · rw [ht] at h2
       obtain ⟨r1, r2, r3, r4, r5⟩ := tryPush_inv ht
@@ -100,7 +100,7 @@ theorem addRr_root_room {ty cls ttl : Nat} {s0 s' : State} {u : Unit} (hty : com
       obtain ⟨_, s8, h8, h⟩ := bind_ok_inv h
       have e8 : s8.cursor = s7.cursor + 2 ∧ s8.octets.size = s7.octets.size := by
         cases h8; exact ⟨rfl, rfl⟩
-      rw [hty] at h
+      rw [show V0.componentTypes cls ty = [] by simp [V0.componentTypes, hty]] at h
       obtain ⟨_, s9, h9, h⟩ := bind_ok_inv h
       have e9 : s9 = s8 := by cases h9; rfl
       rw [bind_ok (get_apply _)] at h
@@ -129,7 +129,7 @@ theorem finishEdns_k' (s4 : State) (e : Edns) (h1 : s4.cursor ≤ s4.available)
         unwrap (addRr .none WName.root T_OPT e.payload ((e.upper * 16777216) % 4294967296) [])
         k) s4 = k s1) ∧
       s1.octets = writeAt s4.octets s4.cursor (optRecord e) ∧ s1.cursor = s4.cursor + 11 := by
-  have hty : componentTypes e.payload T_OPT = [] := by rw [T_OPT_eq]; exact componentTypes_opt _
+  have hty : componentTypes e.payload T_OPT = some [] := by rw [T_OPT_eq]; exact componentTypes_opt41 _
   obtain ⟨s1, hadd, hoct, hcur1⟩ := addRr_root_empty T_OPT e.payload ((e.upper * 16777216) % 4294967296)
     { s4 with available := s4.available + Gen.OPT_RECORD_SIZE } hty
     (by show s4.cursor + 11 ≤ s4.available + 11; omega) (by show s4.cursor + 11 ≤ s4.octets.size; omega)
@@ -157,7 +157,7 @@ theorem finish_inv (s : State) (macFn : Tsig → List UInt8 → List UInt8) (ht 
   | some e =>
     simp only
     have hroom : s.cursor ≤ s.available ∧ s.cursor + 11 ≤ s.octets.size := by
-      unfold finish finishWithMac at h
+      unfold finish at h; rw [finishWithMac_v0] at h; unfold V0.finishWithMac at h
       have c : Gen.QDCOUNT_START = 4 ∧ Gen.ANCOUNT_START = 6 ∧ Gen.NSCOUNT_START = 8 ∧ Gen.ARCOUNT_START = 10 :=
         ⟨rfl, rfl, rfl, rfl⟩
       obtain ⟨c1, c2, c3, c4⟩ := c
@@ -169,7 +169,7 @@ theorem finish_inv (s : State) (macFn : Tsig → List UInt8 → List UInt8) (ht 
       · rename_i len mac' s' heq
         obtain ⟨_, s1, h1, heq⟩ := bind_ok_inv heq
         obtain ⟨_, s2, h2, heq⟩ := bind_ok_inv heq
-        have hr := addRr_root_room (by rw [T_OPT_eq]; exact componentTypes_opt _) (unwrap_ok_inv h2)
+        have hr := addRr_root_room (by rw [T_OPT_eq]; exact componentTypes_opt41 _) (unwrap_ok_inv h2)
         rw [modify_apply] at h1
         simp only [Prod.mk.injEq] at h1
         rw [← h1.2] at hr
@@ -183,7 +183,7 @@ theorem finish_inv (s : State) (macFn : Tsig → List UInt8 → List UInt8) (ht 
       simp only [withCounts, writeAt_size]
     obtain ⟨s1, hk, ho, hc⟩ := finishEdns_k' { s with octets := withCounts s } e hroom.1
       (by rw [hz]; exact hroom.2)
-    unfold finish finishWithMac at h
+    unfold finish at h; rw [finishWithMac_v0] at h; unfold V0.finishWithMac at h
     have c : Gen.QDCOUNT_START = 4 ∧ Gen.ANCOUNT_START = 6 ∧ Gen.NSCOUNT_START = 8 ∧ Gen.ARCOUNT_START = 10 :=
       ⟨rfl, rfl, rfl, rfl⟩
     obtain ⟨c1, c2, c3, c4⟩ := c
@@ -249,7 +249,7 @@ theorem finish_inv_tail (s : State) (macFn : Tsig → List UInt8 → List UInt8)
       by_cases hc : s.cursor + 11 ≤ s.octets.size
       · exact hc
       · exfalso
-        unfold finish finishWithMac at h
+        unfold finish at h; rw [finishWithMac_v0] at h; unfold V0.finishWithMac at h
         rw [bind_ok (get_apply _)] at h
         simp only [he, ht] at h
         rw [show Gen.QDCOUNT_START = 4 from rfl, show Gen.ANCOUNT_START = 6 from rfl,
@@ -259,7 +259,7 @@ theorem finish_inv_tail (s : State) (macFn : Tsig → List UInt8 → List UInt8)
         · rename_i len mac' s' heq
           obtain ⟨_, s1, h1, heq⟩ := bind_ok_inv heq
           obtain ⟨_, s2, h2, heq⟩ := bind_ok_inv heq
-          have hr := addRr_root_room (by rw [T_OPT_eq]; exact componentTypes_opt _) (unwrap_ok_inv h2)
+          have hr := addRr_root_room (by rw [T_OPT_eq]; exact componentTypes_opt41 _) (unwrap_ok_inv h2)
           rw [modify_apply] at h1
           simp only [Prod.mk.injEq] at h1
           rw [← h1.2] at hr
